@@ -16,7 +16,7 @@ type PropertyDef struct {
 var commonTrusted = []string{
 	"go/types and go/ssa (golang.org/x/tools v0.29.0) represent the source faithfully",
 	"the Go compiler and runtime implement the language specification",
-	"the specification tables in /verif/tool transcribe the property statements correctly",
+	"the specification tables in /verif/tool (expected kernels, closed-box definitions, RFC 7946 minima, constants of the property statements) transcribe the property statements correctly",
 }
 
 var properties = map[string]*PropertyDef{}
@@ -26,15 +26,147 @@ func register(d *PropertyDef) {
 		d.Trusted = commonTrusted
 	}
 	if d.RuleText == "" {
-		d.RuleText = "one obligation per rule instance (rule + construct resolved through go/types); an obligation is non-trivial when its construct resolved to real code (it has a source position) and distinct by its rule+construct key"
+		d.RuleText = "one obligation per rule instance (rule + construct resolved through go/types / go/ssa, never by source position); an obligation counts as non-trivial when its construct resolved to real code (it carries a source position) and as distinct by its rule+construct key"
 	}
 	properties[d.ID] = d
 }
 
+func pointKinds(kinds []*leafKind) []*leafKind {
+	var out []*leafKind
+	for _, k := range kinds {
+		if k.Geom == "Point" {
+			out = append(out, k)
+		}
+	}
+	return out
+}
+
+func effects(p *Program) *effAnalysis {
+	ea := p.newEffAnalysis(p.VTA(), false)
+	ea.run()
+	return ea
+}
+
 func init() {
 	register(&PropertyDef{
+		ID: "C01", Level: "other",
+		Explanation: "Decides the structural clauses of point membership: (1) object level = geometry level for point operands — Point/SimplePoint.Within*/Intersects*, the Contains/Intersects matrices of the five leaf kinds and Feature forwarding reduce to the geometry kernel with the right operand roles (E1); Segment.ContainsPoint and Line.ContainsPoint decide by Raycast(p).On (E12); (2) exterior closed / holes open: every ring-kernel call site passes the boundary flag its ring demands and the ring kernels pass it on unchanged; in the parity accumulator 'on' yields the flag and a crossing toggles (E2.B1, B1p); (3) rectangle membership is the closed box, tabulated over all order types (E8); (4) Raycast's comparison prefix and post-nudge exits are exact for every order type and its mirrored halves are mirrors (E8, E2.M1); (5) index independence: only Search may read an index, nobody asks whether one exists, and what is stored as an index was built for that series (E3.own). NOT decided: that ray-cast parity equals exact planar membership (nudge, slope comparison, on-segment ratio) — numerical.",
+		Run: func(p *Program, c *Check) {
+			kinds := p.leafKinds(c, "E1")
+			p.ruleA1A2(c, kinds, true, true, "Point")
+			p.ruleA3(c, pointKinds(kinds), true, true)
+			p.ruleA5(c, func(n string) bool { return n == "WithinPoint" || n == "IntersectsPoint" || n == "Contains" || n == "Intersects" })
+			p.ruleMatrix(c, kinds, "Contains", 6)
+			p.ruleSegmentForwarders(c)
+			p.ruleB1(c, nil)
+			p.ruleB1Searcher(c)
+			p.ruleM1(c, map[string]bool{"geometry.Segment.Raycast": true})
+			p.ruleE8(c, "geometry.Rect.ContainsPoint", "geometry.Segment.Raycast#comparison-prefix", "geometry.Segment.Raycast#post-nudge")
+			p.ruleAccelTables(c, effects(p))
+			c.Assume("coordinates are finite and not NaN (the order-type tabulation covers every finite input)")
+		},
+	})
+	register(&PropertyDef{
+		ID: "C02", Level: "other",
+		Explanation: "Decides: (1) symmetry by construction for every pair of different kinds — T1.IntersectsT2 and T2.IntersectsT1 reduce to one kernel term (E1.A6) and the 5x5 object-level Intersects matrix reduces cell by cell to a geometry kernel, equal for both operand orders when the base geometries differ (E1.M); a Rect operand of a Poly/Line predicate is the five-point polygon &Poly{Exterior: rect}; (2) Rect x Rect and the bounding-box prefix of Segment.IntersectsSegment are exact and symmetric for every order type (E8); the unrolled comparisons are mirrors (E2.M1); (3) boundary conventions: exterior tests inclusive, hole tests exclusive at every call site (E2.B1). NOT decided: exactness of the parametric segment test and of ringIntersectsSegment's crossing count; symmetry of Line x Line and Poly x Poly (they are symmetric only if the kernels are exact).",
+		Run: func(p *Program, c *Check) {
+			kinds := p.leafKinds(c, "E1")
+			p.ruleA1A2(c, kinds, false, true, "")
+			p.ruleA3(c, kinds, false, true)
+			p.ruleA6(c, 4)
+			p.ruleA7(c)
+			rows := p.ruleMatrix(c, kinds, "Intersects", 6)
+			c.Notes = append(c.Notes, matrixEvidence(rows)...)
+			p.ruleB1(c, nil)
+			p.ruleM1(c, map[string]bool{"geometry.Segment.IntersectsSegment": true})
+			p.ruleE8(c, "geometry.Rect.IntersectsRect", "geometry.Segment.IntersectsSegment#box-prefix", "geometry.Rect.ContainsPoint")
+			c.Exhaustive = true
+		},
+	})
+	register(&PropertyDef{
+		ID: "C03", Level: "other",
+		Explanation: "Decides: (1) A.Within(B) is literally B.Contains(A) for all 12 kinds (E1.A4) and every leaf cell of the Contains matrix reduces to base(A).Contains<B>(base(B)) with container as receiver and containee as argument (E1.A1, A3, M-Contains); (2) 'B is non-empty': every Contains{Line,Poly} kernel of the four geometry kinds rejects an empty containee before it can answer true, directly or through the ring kernel it delegates to (E12.empty); (3) box cases are exact for every order type: Rect.ContainsRect, Rect.ContainsPoint (E8); (4) hole conventions at every ring-kernel call site (E2.B1); (5) the 'all points inside => contained' shortcut is gated by the container ring's own Convex(), and only Rect is convex by constant (E12.convex). NOT decided: the five on-edge cases of ringContainsSegment, the convexity flag itself (see C18), Line.ContainsLine's interval arithmetic.",
+		Run: func(p *Program, c *Check) {
+			kinds := p.leafKinds(c, "E1")
+			p.ruleA4(c)
+			p.ruleA1A2(c, kinds, true, false, "")
+			p.ruleA3(c, kinds, true, false)
+			rows := p.ruleMatrix(c, kinds, "Contains", 6)
+			c.Notes = append(c.Notes, matrixEvidence(rows)...)
+			p.ruleEmptyContainee(c)
+			p.ruleConvexGate(c)
+			p.ruleB1(c, nil)
+			p.ruleE8(c, "geometry.Rect.ContainsRect", "geometry.Rect.ContainsPoint")
+			c.Exhaustive = true
+		},
+	})
+	register(&PropertyDef{
+		ID: "C04", Level: "other",
+		Explanation: "Decides the protocol clauses of the compressed indexes: (I4) in every searcher a 'false' from the callback stops the search at every level (the result is tested, no callback is reachable after it, bool searchers return false), the callback receives (SegmentAt(k), k), and it is pre-filtered by seg.Rect().IntersectsRect(query); (I2) in the readers every read of width w at data[addr] is followed by addr += w; (I3) numBytes never chooses a width too small for the value (tabulated, E8) and appendNum/readNum implement the same byte counts; (I5) buildIndex inserts (box of SegmentAt(i), i) for i from 0; quadtree placement: whenever chooseQuad returns q>=0 the item lies inside quadBounds(bounds,q) (E8 over all order types), Rect.IntersectsRect and the R-tree box operations are exact (E8); an index changes nothing else: only Search reads it, only the builder writes it, it is never shared between series (E3.own); Move re-creates the series and its index (E9.move). NOT decided: that R-tree splitting keeps every entry, full 'exactly once' completeness for arbitrary sizes, byte-layout agreement between compress and the readers beyond cursor/width discipline.",
+		Run: func(p *Program, c *Check) {
+			p.ruleCallbackProtocol(c)
+			p.ruleCursor(c)
+			p.ruleWidths(c)
+			p.ruleBuildIndex(c)
+			p.ruleE8(c, "geometry.Rect.IntersectsRect", "geometry.Segment.Rect", "(*geometry.rRect).expand", "(*geometry.rRect).contains", "(*geometry.rRect).intersects", "(*geometry.qNode).chooseQuad+quadBounds")
+			p.ruleAccelTables(c, effects(p))
+			p.ruleMove(c)
+		},
+	})
+	register(&PropertyDef{
+		ID: "C05", Level: "other",
+		Explanation: "Decides termination and totality structurally: (T1) every loop of the three packages has a checked progress measure — range loops, counted loops whose distance to the bound shrinks on every path through the body (path-wise net change of index and bound), the consumption loop of Parse, and two audited exceptions whose shape guards are re-checked (Raycast's nudge; the circle polygon's angle loop with steps clamped >= 3 where it is stored); (T2) in every recursion group no cycle consists only of calls that hand on the caller's own operands: each cycle passes a call that descends into a field/element/sub-document, drops an operand or steps a guarded counter (three audited self-calls with shape guards); (T3) every use of Poly.Exterior as receiver or ring argument is dominated by a nil test or !Empty(); (T5) every parser returns (object,nil) xor (nil,error). NOT decided: polynomial running time, stack depth under adversarial nesting, index-out-of-range for data-dependent indices, non-finite coordinates (the nudge loop assumes finite input).",
+		Run: func(p *Program, c *Check) {
+			p.ruleLoops(c, effects(p))
+			p.ruleRecursion(c)
+			p.ruleNilGuards(c)
+			p.ruleParseDiscipline(c)
+			c.Assume("coordinates are finite (math.Nextafter makes progress)")
+			c.Assume("dependency code (gjson, pretty, sjson, rtree) terminates and calls its callbacks with sub-values / stored items")
+		},
+	})
+	register(&PropertyDef{
+		ID: "C06", Level: "other",
+		Explanation: "Decides the structural preconditions of a lossless round trip: writer and reader cannot drift apart — the type string each kind writes is the one whose parser returns that kind, the payload member each writer emits is the one its parser reads (E6.type/key); the Circle writer's skeleton is the Feature/Point/properties{type:Circle,radius,radius_units:m} form and the reader uses exactly those paths, takes 'm' unscaled and builds the Circle from the parsed radius (E6.circle); a Feature always emits properties (E6.props); z/m values of ring k are read at the running position index (E5.pidx); every ordinate is written by the one shortest-round-trip formatter behind the NaN/Inf guard (E5.float); every writer emits one well-formed JSON value on every path (E5.json) and stored member text is a non-empty object (E6.members). NOT decided: byte identity of the second output, gjson's number parsing, duplicate/escaped keys, mixed dimensionality.",
+		Run: func(p *Program, c *Check) {
+			tmp := NewCheck("tmp", "quick")
+			targets := p.ruleMemberScan(tmp)
+			p.ruleTypeTables(c, targets)
+			p.ruleCircleConvention(c)
+			p.ruleFeatureProperties(c)
+			p.rulePositionIndex(c)
+			p.ruleFloatFormat(c)
+			p.ruleJSONGrammar(c)
+			p.ruleMembersNonEmpty(c)
+		},
+	})
+	register(&PropertyDef{
+		ID: "C07", Level: "other",
+		Explanation: "Decides the reject side and the scan discipline: (V1) on the straight path of every typed parser there is a rejecting guard equivalent — for every order type — to the RFC 7946 minimum (line >= 2 positions; polygon >= 1 ring; ring >= 4 positions and closed), positions have >= 2 numeric ordinates, at most four are read, null only in Point/MultiPoint; (V2) the text is validated as a whole first, every reserved member is stored by one unconditional assignment in a single document-order scan (last duplicate wins) and nothing reads the text any other way; missing / non-string type is rejected; (T5) object xor error. NOT decided: numeric equality with a standard decoder, the accept side for every well-formed document.",
+		Run: func(p *Program, c *Check) {
+			p.ruleStructuralMinima(c)
+			p.ruleMemberScan(c)
+			p.ruleParseDiscipline(c)
+		},
+	})
+	register(&PropertyDef{
+		ID: "C08", Level: "other",
+		Explanation: "Decides: (V3) options reach every nested parse/constructor unchanged; (V4) RequireValid is honoured by all nine typed parsers (Valid() tested under it, or children parsed through Parse); (V6/E8) representation options: SimplePoint and Point are built from the same parsed position and only without extras; the AllowRects test selects exactly the axis-parallel rectangles — tabulated over all order types of the five positions — and the Rect is spanned by positions 0 and 2; (P1) a SimplePoint geometry is recognised wherever a Point is (Circle recognition); index options influence only accelerator fields, which only Search reads (E3.own); SimplePoint/Rect cells dispatch like Point/Polygon cells (E1). NOT decided: equality of predicate answers between Rect and its polygon (numerical).",
+		Run: func(p *Program, c *Check) {
+			p.ruleOptionPropagation(c)
+			p.ruleRequireValid(c)
+			p.ruleRepresentationOptions(c)
+			p.ruleE8(c, "geojson.parseJSONPolygon#AllowRects-condition")
+			p.ruleP1(c)
+			p.ruleAccelTables(c, effects(p))
+			kinds := p.leafKinds(c, "E1")
+			p.ruleA1A2(c, kinds, true, true, "")
+			p.ruleA7(c)
+		},
+	})
+	register(&PropertyDef{
 		ID: "C09", Level: "other",
-		Explanation: "Static dispatch/forwarding conformance (E1) over the type-checked syntax of /repo: A.Within(B) is literally B.Contains(A) for all 12 kinds (A4); every leaf kind forwards Contains/Intersects/Within*/Intersects* to the geometry kernel of its base geometry with the right operand roles (A1-A3, 5x5 Contains and Intersects matrices reduced to kernel terms); Intersects of two different leaf kinds reduces to the same kernel term in both operand orders, i.e. it is symmetric by construction (A6, M-sym); Feature forwards every predicate to its geometry (A5); Spatial() is the receiver (A8); geometry.Rect is the five-point ring of its corners and Rect operands of Poly/Line predicates go through &Poly{Exterior: rect} (A7); Circle's type-switch arms agree between Contains and Intersects and treat Point/SimplePoint/Feature alike (E2 P1/P2). NOT decided: contains=>intersects=>boxes meet, self-containment, symmetry of collection x anything and of Line x Line / Poly x Poly (needs exact kernels).",
+		Explanation: "Static dispatch/forwarding conformance (E1) over the type-checked syntax of /repo: A.Within(B) is literally B.Contains(A) for all 12 kinds (A4); every leaf kind forwards Contains/Intersects/Within*/Intersects* to the geometry kernel of its base geometry with the right operand roles (A1-A3, 5x5 Contains and Intersects matrices reduced to kernel terms); Intersects of two different leaf kinds reduces to the same kernel term in both operand orders, i.e. it is symmetric by construction (A6, M-sym); point kinds answer a Circle operand by the circle's exact test (A3c); Feature forwards every predicate to its geometry (A5); Spatial() is the receiver (A8); geometry.Rect is the five-point ring of its corners (A7); Circle's type-switch arms agree between Contains and Intersects and treat Point/SimplePoint/Feature alike (E2.P1/P2); the box kernels are exact (E8). NOT decided: contains=>intersects=>boxes meet, self-containment, symmetry of collection x anything and of Line x Line / Poly x Poly (needs exact kernels).",
 		Run: func(p *Program, c *Check) {
 			kinds := p.leafKinds(c, "E1")
 			c.Floor("E1", len(kinds), 5, "leaf kinds")
@@ -48,71 +180,87 @@ func init() {
 			rows := p.ruleMatrix(c, kinds, "Contains", 6)
 			rows = append(rows, p.ruleMatrix(c, kinds, "Intersects", 6)...)
 			c.Notes = append(c.Notes, matrixEvidence(rows)...)
+			p.ruleP1(c)
+			p.ruleP2(c)
+			p.ruleE8(c, "geometry.Rect.ContainsRect", "geometry.Rect.IntersectsRect", "geometry.Rect.ContainsPoint")
 			c.Exhaustive = true
 		},
 	})
 	register(&PropertyDef{
+		ID: "C10", Level: "other",
+		Explanation: "Decides: the cached emptiness/rectangle of a collection is the fold over exactly its non-empty children — empty children are skipped first, nothing seeds the accumulator, and the fold step is verified inductively for every order type of the rectangles involved (first non-empty child sets the rectangle, later ones enlarge it to the union, the collection becomes non-empty); unionRects is the exact union (E8); the child index receives exactly (child.Rect(), child) of the non-empty children and the linear arm of Search applies the same two filters, both arms honour early stop (E10, E9.I4); only Search/Indexed read the tree (E3.own); NumPoints is the sum, Valid the conjunction over the children; Empty/Rect return the folded values. NOT decided: the counting logic of Within*, the ∀/∃ composition laws for nested/duplicate children, the dependency rtree.",
+		Run: func(p *Program, c *Check) {
+			p.ruleCollectionFold(c)
+			p.ruleCollectionSearch(c)
+			p.ruleFolds(c)
+			p.ruleE8(c, "geojson.unionRects", "geometry.Rect.IntersectsRect")
+			p.ruleCallbackProtocol(c)
+			p.ruleAccelTables(c, effects(p))
+		},
+	})
+	register(&PropertyDef{
+		ID: "C11", Level: "other",
+		Explanation: "Decides by exhaustive tabulation over order types (E8): processPoints' rectangle is the tight box of all points (base case + inductive step), Segment.Rect, unionRects and rRect.expand are exact min/max selections, Point.Valid / Rect.Valid are the closed lon/lat ranges with the constants of the statement, baseSeries.Empty and the constructor's entry guard use exactly the thresholds 'closed < 3, open < 2'; by forwarding (E12): every leaf kind's Valid/Rect/Empty is its base geometry's, Center is the position (points) or the syntactic midpoint of Rect() (others), Poly.Rect/Empty are its exterior's; ∀-folds of Valid, the collection fold and its cached values (E10). NOT decided: float rounding of the midpoint; holes lying outside the exterior.",
+		Run: func(p *Program, c *Check) {
+			p.ruleE8(c, "geometry.processPoints#rect-base", "geometry.processPoints#rect-step", "geometry.Segment.Rect", "geojson.unionRects", "(*geometry.rRect).expand",
+				"geometry.Point.Valid", "geometry.Rect.Valid", "(*geometry.baseSeries).Empty", "geometry.processPoints#entry-guard", "geometry.Rect.ContainsRect", "geometry.Rect.IntersectsRect", "geometry.Rect.ContainsPoint")
+			p.ruleObjectForwarders(c)
+			p.ruleFolds(c)
+			p.ruleCollectionFold(c)
+			p.ruleM1(c, map[string]bool{"geometry.processPoints": true, "geojson.unionRects": true, "geometry.Rect.ContainsRect": true, "geometry.Rect.IntersectsRect": true})
+			c.Exhaustive = true
+			c.Assume("coordinates are not NaN")
+		},
+	})
+	register(&PropertyDef{
+		ID: "C12", Level: "other",
+		Explanation: "Decides only the clause 'translation via Move': Point/Rect/Segment.Move return X+deltaX, Y+deltaY for every stored coordinate (symbolic return terms); baseSeries.Move rebuilds point i as (points[i].X+deltaX, points[i].Y+deltaY) with the same index, keeps closedness, copies the index kind and rebuilds the index for the moved points (never shares the old one); Line.Move and Poly.Move hand (deltaX, deltaY) to every ring unchanged and in order. NOT decided: invariance of predicate answers under translation, scaling, reflection, rotation of the start vertex, reversal, or presence of the closing vertex — these relate two numerical executions.",
+		Run: func(p *Program, c *Check) {
+			p.ruleMove(c)
+			p.ruleAccelTables(c, effects(p))
+			p.ruleDerivedAttributes(c)
+		},
+	})
+	register(&PropertyDef{
 		ID: "C13", Level: "other",
-		Explanation: "E2 sibling rules on Circle: P1 (every type test on *Point has its *SimplePoint twin with equal arms), P2 (Contains and Intersects special-case the same operand kinds: Point, SimplePoint, Circle, Feature, Collection), M2 (circle/circle comparisons have the monotonicity and inclusiveness of the statement; point membership is exactly distance(point,centre) <= radius with no other condition), E1.A3c (Point/SimplePoint.Intersects(*Circle) delegates to Circle.Contains, so operand order cannot matter). NOT decided: any distance threshold, radius normalisation, quality of the polygon approximation.",
+		Explanation: "E2 sibling rules on Circle: P1 (every type test on *Point has its *SimplePoint twin with equal arms), P2 (Contains and Intersects special-case the same operand kinds: Point, SimplePoint, Circle, Feature, Collection), M2 (circle/circle comparisons have the monotonicity and inclusiveness of the statement; point membership is exactly distance(point,centre) <= radius with no other condition, and the point arms pass the operand's position), E1.A3c (Point/SimplePoint.Intersects(*Circle) delegates to Circle.Contains, so operand order cannot matter); E6: the writer's skeleton and the reader's paths/units agree; E5: radius and centre go through the NaN/Inf-guarded formatter; the steps clamp (>=3) dominates the store and bounds the polygon loop (E4 guard). NOT decided: any distance threshold, radius normalisation, quality of the polygon approximation.",
 		Run: func(p *Program, c *Check) {
 			p.ruleP1(c)
 			p.ruleP2(c)
 			p.ruleM2(c)
 			kinds := p.leafKinds(c, "E1")
-			var pts []*leafKind
-			for _, k := range kinds {
-				if k.Geom == "Point" {
-					pts = append(pts, k)
-				}
-			}
-			p.ruleA3(c, pts, false, true)
+			p.ruleA3(c, pointKinds(kinds), false, true)
+			p.ruleCircleConvention(c)
+			p.ruleFloatFormat(c)
 		},
 	})
 	register(&PropertyDef{
-		ID: "C19", Level: "other",
-		Explanation: "E2.M1 mirrored branches of the hand-unrolled segment kernels (Raycast, IntersectsSegment): every if/else and if/else-if whose condition compares the same field of two points must be an exact mirror under the swap of those points, and every X statement must equal its Y twin; a one-sided operator edit is a contradiction between siblings. NOT decided: the arithmetic (on-segment ratio, nudge, slope, parametric test).",
+		ID: "C14", Level: "other",
+		Explanation: "Decides only the clause 'the rectangle lies within the world bounds and widens to the full longitude range at a pole / across the antimeridian', as a clamp typestate on RectFromCenter's SSA: at the degree conversion minLat >= -pi/2, maxLat <= pi/2, minLon >= -pi, maxLon <= pi hold on every path (each bound is an in-range constant or passed the not-taken edge of the matching out-of-range test), and every join that clamps a latitude also assigns both longitude bounds to ∓pi. Assumes non-NaN intermediate values. NOT decided: coverage of the disc, the tangent-longitude formula, the tiny-radius guard, NaN freedom.",
 		Run: func(p *Program, c *Check) {
-			p.ruleM1(c, map[string]bool{"geometry.Segment.Raycast": true, "geometry.Segment.IntersectsSegment": true, "geometry.Segment.Rect": true})
-			p.ruleB1Searcher(c)
-			p.ruleB1(c, nil)
-		},
-	})
-	register(&PropertyDef{
-		ID: "C11", Level: "other",
-		Explanation: "E8 comparison networks (tabulated over all weak orders of their inputs).",
-		Run: func(p *Program, c *Check) {
-			var ids []string
-			for id := range p.e8Rows() {
-				ids = append(ids, id)
-			}
-			sort.Strings(ids)
-			p.ruleE8(c, ids...)
-			c.Exhaustive = true
+			p.ruleClamp(c)
+			c.Assume("intermediate values are not NaN (comparisons with NaN are false and would skip the clamps)")
 		},
 	})
 	register(&PropertyDef{
 		ID: "C16", Level: "proof",
-		Explanation: "E3 effect/ownership analysis.",
+		Explanation: "E3 effect/ownership analysis: a field-sensitive, access-path-limited points-to analysis per function with interprocedural summaries (fixed point over the VTA call graph; closures charged where they are created; dependency callees through an audited effect table). One obligation per exported function and per method in the method sets of the exported types of the three packages (constructors and Parse included): its transitive effect set contains no write to memory that was not allocated during the call (other than the caller-supplied dst of Append*), no write to a global, no goroutine, no channel/sync use, no map iteration, time, randomness or unsafe. Read-only code on shared data cannot race, and a computation without nondeterminism sources over immutable inputs returns the same value under every schedule. Plus the who-may-read/who-may-write tables of the accelerator fields. NOT decided: races inside user-supplied Object implementations or callbacks; mutation by callers through the slices/pointers that Children(), Base() and the non-copying constructors share with them.",
+		Trusted: append([]string{
+			"VTA over CHA over-approximates dynamic dispatch among the types of the loaded packages",
+			"the effect table of dependency callees (math, strconv, encoding/binary, sort, strings, errors, fmt, gjson, pretty, sjson, rtree) in tool/e3_effects.go",
+			"no unsafe/reflect/cgo in the repository packages (unsafe conversions are flagged by the analysis)",
+		}, commonTrusted...),
 		Run: func(p *Program, c *Check) {
 			ea := p.ruleEffects(c, false, false)
 			p.ruleAccelTables(c, ea)
-		},
-	})
-	register(&PropertyDef{
-		ID: "C05", Level: "other",
-		Explanation: "E4 termination and totality.",
-		Run: func(p *Program, c *Check) {
-			ea := p.newEffAnalysis(p.VTA(), false)
-			ea.run()
-			p.ruleLoops(c, ea)
-			p.ruleRecursion(c)
-			p.ruleNilGuards(c)
-			p.ruleParseDiscipline(c)
+			if c.Tier == "thorough" {
+				p.ruleEffects(c, false, true)
+			}
 		},
 	})
 	register(&PropertyDef{
 		ID: "C17", Level: "other",
-		Explanation: "E5 append typestate.",
+		Explanation: "Decides: the append contract for all 17 writers and helpers (E5.append: the result is prefix ++ f(object); the destination is never re-sliced, indexed, stored or inspected; no stale buffer is reused on any path); every writer emits exactly one well-formed JSON value on every path — a pushdown JSON recogniser is run abstractly over each writer's control-flow graph with first/later-iteration flags for the comma idiom (E5.json), member text is a non-empty object (E6.members); JSON(), String(), MarshalJSON() are AppendJSON(nil) of the same object for all 12 kinds (E5.views); every float is written by the one formatter behind the NaN/Inf guard, non-finite values as null (E5.float); the \"type\" written names the kind's GeoJSON type and the payload member is the one that type requires (E6); a Feature always emits properties (E6.props); the position index continues across rings (E5.pidx). NOT decided: coordinate nesting depth of Multi* (they splice a child's own coordinates member), member strings containing reserved keys, that spliced member text is itself valid JSON (guarded by gjson.Valid at construction).",
 		Run: func(p *Program, c *Check) {
 			p.ruleAppendTypestate(c)
 			p.ruleJSONGrammar(c)
@@ -120,63 +268,32 @@ func init() {
 			p.rulePositionIndex(c)
 			p.ruleThreeViews(c)
 			p.ruleFloatFormat(c)
-		},
-	})
-	register(&PropertyDef{
-		ID: "C04", Level: "other",
-		Explanation: "E9 index protocol.",
-		Run: func(p *Program, c *Check) {
-			p.ruleCallbackProtocol(c)
-			p.ruleCursor(c)
-			p.ruleWidths(c)
-			p.ruleBuildIndex(c)
-		},
-	})
-	register(&PropertyDef{
-		ID: "C07", Level: "other",
-		Explanation: "E7 parser must-check.",
-		Run: func(p *Program, c *Check) {
-			p.ruleStructuralMinima(c)
-			p.ruleMemberScan(c)
-			p.ruleOptionPropagation(c)
-			p.ruleRequireValid(c)
-			p.ruleRepresentationOptions(c)
-		},
-	})
-	register(&PropertyDef{
-		ID: "C06", Level: "other",
-		Explanation: "E6 writer/reader tables.",
-		Run: func(p *Program, c *Check) {
 			tmp := NewCheck("tmp", "quick")
-			targets := p.ruleMemberScan(tmp)
-			p.ruleTypeTables(c, targets)
-			p.ruleCircleConvention(c)
+			p.ruleTypeTables(c, p.ruleMemberScan(tmp))
 			p.ruleFeatureProperties(c)
-			p.rulePositionIndex(c)
-			p.ruleFloatFormat(c)
+			c.Assume("the coordinates member extracted from a child's own output is a JSON value (the child writer is checked by the same rule)")
 		},
 	})
 	register(&PropertyDef{
-		ID: "C10", Level: "other",
-		Explanation: "collections.",
+		ID: "C18", Level: "other",
+		Explanation: "Decides only the segment-count clause and the write-once discipline: NumSegments and Empty are tabulated over (len, closed, last==first) against 'open n-1, closed n-1 when the last point repeats the first else n, 0 below the thresholds' (E8); convex, clockwise, rect, closed and points of a series are written only by the constructor (plus the stack-local two-point line of Line.ContainsPoly), from the constructor's own points and closed flag (E12.attr); only Rect is convex by constant (E12.convex). NOT decided: convexity and orientation themselves — turn signs and shoelace sums are arithmetic (the seam defect D8 recorded in DESIGN.md is out of reach).",
 		Run: func(p *Program, c *Check) {
-			p.ruleCollectionFold(c)
-			p.ruleCollectionSearch(c)
-			p.ruleFolds(c)
+			p.ruleE8(c, "(*geometry.baseSeries).NumSegments", "(*geometry.baseSeries).Empty", "geometry.processPoints#entry-guard")
+			p.ruleDerivedAttributes(c)
+			p.ruleConvexGate(c)
+			c.Exhaustive = true
 		},
 	})
 	register(&PropertyDef{
-		ID: "C12", Level: "other",
-		Explanation: "Move.",
+		ID: "C19", Level: "other",
+		Explanation: "Decides: ContainsPoint is Raycast(p).On and ContainsSegment is 'both endpoints On' (E12); the comparison prefix of Raycast (band test, zero-length / horizontal / vertical on-segment cases) and its post-nudge early exits are exact for every order type; the bounding-box prefix of IntersectsSegment returns false exactly for disjoint boxes and true only for a shared endpoint; Segment.Rect is the exact box; eqZero is the two-sided zero test (E8, exhaustive); every if/else whose condition compares the same field of two points is an exact mirror under the swap and every X statement equals its Y twin (E2.M1). NOT decided: the on-segment ratio test, the nudge, the slope comparison, the parametric t/u test, collinear overlap — arithmetic (the pinned kernel misses some collinear-overlap cases; see DESIGN.md).",
 		Run: func(p *Program, c *Check) {
-			p.ruleMove(c)
+			p.ruleSegmentForwarders(c)
+			p.ruleM1(c, map[string]bool{"geometry.Segment.Raycast": true, "geometry.Segment.IntersectsSegment": true, "geometry.Segment.Rect": true})
+			p.ruleE8(c, "geometry.Segment.Raycast#comparison-prefix", "geometry.Segment.Raycast#post-nudge", "geometry.Segment.IntersectsSegment#box-prefix", "geometry.Segment.Rect")
+			c.Exhaustive = true
+			c.Assume("coordinates are finite and not NaN")
 		},
 	})
-	register(&PropertyDef{
-		ID: "C14", Level: "other",
-		Explanation: "clamp.",
-		Run: func(p *Program, c *Check) {
-			p.ruleClamp(c)
-		},
-	})
+	_ = sort.Strings
 }
